@@ -3,6 +3,7 @@
 set -e
 cd "$(dirname "$0")"
 export GOPROXY=off GOSUMDB=off GOTOOLCHAIN=local GOFLAGS=
+./check --extract
 (cd lean && lake build)
 mkdir -p bin evidence replays
 ./check --build
